@@ -65,6 +65,12 @@ func genCaseSeeded(seed int) Case {
 					ref := rapid.SampledFrom(refs).Draw(t, "ref")
 					c.Prefix = append(c.Prefix, POp{Op: "tag", N: n, Ref: ref})
 					tags[ref] = n
+					if rapid.IntRange(0, 2).Draw(t, "secondTag") == 0 {
+						// several tags on one node: its deletion rewrites several entries
+						ref2 := rapid.SampledFrom(refs).Draw(t, "ref2")
+						c.Prefix = append(c.Prefix, POp{Op: "tag", N: n, Ref: ref2})
+						tags[ref2] = n
+					}
 				}
 			default:
 				ref := rapid.SampledFrom(refs).Draw(t, "uref")
@@ -108,6 +114,25 @@ func genCaseSeeded(seed int) Case {
 		}
 		if len(mpool) > 0 && rapid.IntRange(0, 3).Draw(t, "preferManifest") != 0 {
 			pool = mpool
+		}
+		// prefer deleting / re-tagging nodes that carry tags
+		var tpool []POp
+		for _, cd := range pool {
+			if cd.Op != "delete" && cd.Op != "tag" {
+				continue
+			}
+			k := 0
+			for _, n := range tags {
+				if n == cd.N {
+					k++
+				}
+			}
+			if k >= 2 || (k >= 1 && cd.Op == "delete") {
+				tpool = append(tpool, cd)
+			}
+		}
+		if len(tpool) > 0 && rapid.Bool().Draw(t, "preferTagged") {
+			pool = tpool
 		}
 		c.Last = rapid.SampledFrom(pool).Draw(t, "last")
 		return c
